@@ -3,8 +3,8 @@
 # (never touches /repo's working tree). Prints the check's verdict lines.
 ID=$1; PROP=$2; TIER=${3:-quick}
 WT=/tmp/wt/try_$ID
-git -C /repo worktree add -q --detach $WT HEAD 2>/dev/null || { git -C $WT checkout -q -- . ; git -C $WT clean -fdq; }
-git -C $WT apply -3 /verif/seeded/$ID/patch.diff 2>/dev/null || { echo "patch failed"; exit 2; }
+git -C /repo worktree remove --force $WT 2>/dev/null; rm -rf $WT; git -C /repo worktree prune; git -C /repo worktree add -q --detach $WT HEAD
+git -C $WT apply -3 /verif/seeded/$ID/patch.diff 2>/dev/null || { echo "patch failed"; git -C /repo worktree remove --force $WT; exit 2; }
 mkdir -p /tmp/tcheck-try/$ID && cp /verif/known_findings.json /tmp/tcheck-try/$ID/
 TCHECK_REPO=$WT TCHECK_VERIF=/tmp/tcheck-try/$ID /verif/bin/tcheck $PROP --tier $TIER > /tmp/tcheck-try/$ID/out.txt 2>&1
 rc=$?
